@@ -206,13 +206,16 @@ def check_edges_and_value(res, facts, prop):
     it = Interp(facts)
     st = State()
     rc, N = rb.controller(it, st)
+    # class invariant of the stored value: 0 <= current_val = w * boundary with w in [0,1) (0 <= E(a) <= a < boundary, below)
+    b = rc.get('finger_press_high_boundary').term
+    w = st.ctx.sym_range('w', 0, 1)
+    rc.fields[rc.names.index('current_val')] = Num(w * b, 'f32')
     pre = copy.deepcopy(rc)
     outs, cell = run_method(it, st, RCF + 'value', rc, [], genv={'BUFFER_CAPACITY': N})
     res.absorb(it)
-    cv, b = pre.get('current_val').term, pre.get('finger_press_high_boundary').term
     for o in sem_iter(outs):
-        ok = o.status == 'returned' and isinstance(o.ret, Num) and o.ret.term == cv * inv_poly(b) and not spec_fields_changed(pre, o.cells[cell], RC_FIELDS)
-        res.ob('R-AVG', 'value() = current_val / boundary (read-only)', ok, 'value() = %r' % (o.ret,), where_of(facts, RCF + 'value'))
+        ok = o.status == 'returned' and isinstance(o.ret, Num) and o.ret.term == w and not spec_fields_changed(pre, o.cells[cell], RC_FIELDS)
+        res.ob('R-AVG', 'value() = current_val / boundary (read-only)', ok, 'value() = %r for current_val = w*boundary' % (o.ret,), where_of(facts, RCF + 'value'))
     # E(a) = a - (a - a^2) e : 0 <= E(a) <= a, dE/da >= 0 for a in [0, b), e in [0,1]
     from ..terms import Ctx
     ctx = Ctx()
